@@ -300,6 +300,10 @@ def cases_run(tier):
                     for allow_nan in (False, True):
                         yield "%s/missing=%s/allfailed=%s/min=%d/allow_nan=%s" % ("".join(kinds), "".join("1" if m else "0" for m in missing), "".join("1" if m else "0" for m in allfailed), ms, allow_nan), {
                             "kinds": list(kinds), "missing": list(missing), "allfailed": list(allfailed), "ms": ms, "allow_nan": allow_nan}
+                        if n <= 2:
+                            # the driver used without an evaluation callback (signal_evaluation is optional): the abort does not depend on it
+                            yield "%s/missing=%s/allfailed=%s/min=%d/allow_nan=%s/no-evaluation-callback" % ("".join(kinds), "".join("1" if m else "0" for m in missing), "".join("1" if m else "0" for m in allfailed), ms, allow_nan), {
+                                "kinds": list(kinds), "missing": list(missing), "allfailed": list(allfailed), "ms": ms, "allow_nan": allow_nan, "no_callback": True}
 
 
 def scn_run(T, case):
@@ -329,17 +333,17 @@ def scn_run(T, case):
                                               optimizer=types.SimpleNamespace(output_dir=None, stdout=None, stderr=None))
     opt._redirector = red(opt._enopt_config)
     opt._allow_nan = case["allow_nan"]
-    opt._signal_evaluation = lambda res=None: log.append("start" if res is None else ("results", res))
+    opt._signal_evaluation = None if case.get("no_callback") else (lambda res=None: log.append("start" if res is None else ("results", res)))
     opt._function_evaluator = types.SimpleNamespace(calculate=lambda v, compute_functions, compute_gradients: (log.append("calculate"), results)[1])
     too_few = any(case["missing"]) or (case["ms"] < 1 and not case["allow_nan"] and any(case["allfailed"]))
     try:
         out = opt._run_evaluations(np.zeros(1), compute_functions="F" in case["kinds"], compute_gradients="G" in case["kinds"])
     except OptimizationAborted as exc:
         T.prove("C03.run_evaluations.aborts_only_with_too_few_realizations", too_few and exc.exit_code == OptimizerExitCode.TOO_FEW_REALIZATIONS)
-        T.prove("C03.run_evaluations.results_are_signalled_before_the_abort", log == ["start", "calculate", ("results", results)])
+        T.prove("C03.run_evaluations.results_are_signalled_before_the_abort", log == (["calculate"] if case.get("no_callback") else ["start", "calculate", ("results", results)]))
         return
     T.prove("C03.run_evaluations.too_few_realizations_always_aborts", not too_few)
-    T.prove("C03.run_evaluations.returns_the_results_after_signalling_them", out is results and log == ["start", "calculate", ("results", results)])
+    T.prove("C03.run_evaluations.returns_the_results_after_signalling_them", out is results and log == (["calculate"] if case.get("no_callback") else ["start", "calculate", ("results", results)]))
 
 
 # ------------------------------------------------------------------------------------ the success threshold of a validated configuration
@@ -347,6 +351,10 @@ def cases_threshold(tier):
     for ms in (None, 0, 2, 5):
         for zero in (False, True):
             yield "min_success=%s%s" % (ms, "/one-zero-weight" if zero else ""), {"v": "realizations", "ms": ms, "zero": zero}
+    # perturbation_min_success: the default (and the clamp) is the configured number of perturbations, whatever that number is
+    for P in (1, 3, 8, 12):
+        for pms in (None, 2, 20):
+            yield "%d-perturbations/perturbation_min_success=%s" % (P, pms), {"v": "gradient-min", "pms": pms, "P": P}
 
 
 def scn_threshold(T, case):
